@@ -178,6 +178,13 @@ func runMW(raw json.RawMessage) (interface{}, error) {
 			ctx = metainfo.WithValue(ctx, kv[0], kv[1])
 		}
 	}
+	for _, kv := range call.Decoy {
+		if call.Extractor {
+			ctx = metainfo.WithValue(ctx, kv[0], kv[1])
+		} else {
+			ctx = metainfo.WithPersistentValue(ctx, kv[0], kv[1])
+		}
+	}
 	o.ReValid, o.ReMatch = regexTables(ctxs, values)
 	if c.CtxDone {
 		var cancelCtx context.CancelFunc
